@@ -1,7 +1,7 @@
 """C06 — SCC captions appear and disappear at the frames their commands are sent."""
 import json
 from fractions import Fraction
-from pcv import core, sccgen
+from pcv import capio, core, sccgen
 from pcv.props import scc_common as sc
 
 P = "PcVerif.Props.C06."
@@ -30,7 +30,7 @@ def explore(chk):
         p = sccgen.gen_popon(rng, rich=False, ncaps=2, max_len=6)
         progs.append(p)
     b = core.Batch()
-    ops = [b.add("scc.read", "%d/1" % p["offset"], core.enc(p["text"])) for p in progs]
+    ops = [b.add("scc.read", capio.fr(p["offset"]), core.enc(p["text"])) for p in progs]
     out = b.run() if chk.driver_ok else None
     import pycaption
     shared_reader = pycaption.SCCReader()
